@@ -395,6 +395,11 @@ func c14History(c *vc.Ctx, idx int) {
 					o.locks = append(o.locks, lr)
 					o.Desc = append(o.Desc, "lock v2: stronger than v1, which is rotated out")
 				}
+			case M + 2:
+				// rotated out, but CometBFT still lists it in the next two commits: it is absent there - and, being no
+				// longer active, not counted
+				h.absentRun[1] = 2
+				c.Count("absences_of_a_rotated_out_validator_in_the_trailing_commits", 1)
 			case M + 5:
 				h.extra = func(o *blockOps) {
 					rec := &unlockRec{ID: h.nextUID, Val: 2, Token: tokBTC, Requested: big30}
